@@ -12,7 +12,8 @@ import importlib.machinery, importlib.util
 loader = importlib.machinery.SourceFileLoader("check", os.path.join(os.getcwd(), "check"))
 spec = importlib.util.spec_from_loader("check", loader)
 m = importlib.util.module_from_spec(spec); loader.exec_module(m)
-ok, log = m.coq_build()
+claimed = sorted(p for p in m.PROPS if not m.PROPS[p].get("not_applicable"))
+ok, log = m.coq_build(None, ["Model/DecCheck.vo"] + ["Properties/%s.vo" % p for p in claimed])
 print(log[-3000:])
 if not ok:
     sys.exit(1)
